@@ -5,7 +5,7 @@ PROP = dict(
   obligations=['ram.idx.injective', 'ram.node_ctor.prefilled', 'ram.ctor.empty', 'ram.push.slot', 'ram.push.new_node', 'ram.push.frame', 'ram.push.fifo', 'ram.push.commit', 'ram.pop.commit', 'ram.sync.acquire', 'ram.int.ticket', 'ram.pop.slot', 'ram.pop.fifo', 'ram.pop.empty', 'ram.pop.next_node', 'ram.pop.invalidate', 'ram.pop.frame', 'ram.try_pop.forwards', 'ram.inv.preserved', 'ram.node.live_deref', 'msq.ctor.empty', 'msq.push.appends', 'msq.push.frame', 'msq.push.commit', 'msq.pop.takes_first', 'msq.pop.helps_tail', 'msq.pop.frame', 'msq.pop.commit', 'msq.sync.acquire', 'msq.node.live_deref',
                'static.queues.no_use_after_move', 'nq.sync.acquire', 'nq.scq.requires', 'nq.guard.protected', 'nq.node_ctor.inv', 'nq.inv.preserved', 'nq.push.appends', 'nq.push.rollback', 'nq.push.finalizes',
                'nq.push.publish_order', 'nq.push.hand_over', 'nq.pop.empty_iff', 'nq.pop.takes_first', 'nq.pop.empty_validated', 'nq.pop.hand_over',
-               'nq.pop.threshold_reset', 'nq.pop.retire_once', 'nq.pop.destroy_before_release', 'nq.commit', 'nq.own.exactly_once',
+               'nq.pop.threshold_reset', 'nq.pop.retire_once', 'nq.pop_optional.same_as_try_pop', 'nq.pop.destroy_before_release', 'nq.commit', 'nq.own.exactly_once',
                'scq.dequeue.retries_bounded', 'scq.sync.orders', 'scq.enqueue.appends', 'scq.enqueue.finalized_fails', 'scq.dequeue.takes_first', 'scq.dequeue.empty_iff', 'scq.inv.preserved',
                'scq.catchup.keeps_finalized', 'scq.finalize.sets', 'scq.enqueue.skips_overtaken', 'scq.dequeue.blocks_ticket'],
   explanation='Sequential FIFO refinement per operation from any invariant state (node/ring state symbolic), node hand-over and finalisation, commit-point validation in INT mode, '
